@@ -10,6 +10,26 @@ NOT_APPLICABLE = {
 }
 
 TEXT = {
+    'C01': {
+        'technique': 'Verus panic-freedom/termination obligations (overflow, index, slice, unwrap preconditions, decreases) on every extracted reply-path function with no precondition on reply bytes',
+        'level_text': 'Unbounded proof that each extracted reply-path function returns Ok or Err for every reply: Verus generates and discharges an obligation for every arithmetic operation, cast, index, slice and callee precondition; loops carry decreases (parse loops by remaining bytes, network loops by the finite reply script).',
+        'level_note': 'Third-party bodies (bzip2_rs, serde_json, encoding_rs, ureq) and std::net assumed total; std collection/string functions as in contracts/std_*.rs; functions not yet extracted are listed under not_covered in the evidence.',
+    },
+    'C02': {
+        'technique': 'Verus: each A2S parser proved to be a left inverse of a spec encoder written from the Valve specification (opaque stream algebra + per-step lemmas), loops by quantified invariants',
+        'level_text': 'Unbounded proof for all server states in the specification domain: SplitPacket::new, Packet::new_from_bufferer, get_server_info (Source: all 32 EDF combinations, The Ship, app id from GameID; obsolete GoldSrc layout), get_server_players and get_server_rules return exactly the encoded state; enum casts for all byte values.',
+        'level_note': 'UTF-8 transcoding abstract (three axioms), bzip2/crc32 assumed, the network exchange is an uninterpreted oracle (a2s_exchange); reassembly order is covered by C08; retry wrapper contract discharged by Kani.',
+    },
+    'C11': {
+        'technique': 'Verus contract on get_response with maybe_gather! expanded from the repository macro; ghost send log proves skipped sections are never requested',
+        'level_text': 'Proof for all 9 toggle pairs and all callee outcomes: Skip => section absent and no datagram of that kind in the send log; Enforce => section present in every returned response; check_app_id => returned app id is an expected one.',
+        'level_note': 'ValveProtocol::new (socket creation) assumed to start with an empty send log; socket send/receive contract assumed (contracts/net_model.rs).',
+    },
+    'C13': {
+        'technique': 'Verus: every sized allocation in extracted reply-path code is routed (rewrite R17) through wrappers whose precondition is the 16 MiB / 64x-received allowance; unrouted allocation sites make the unit undecided',
+        'level_text': 'Proof at each allocation site that the requested size is within the fixed allowance or proportional to the bytes received; requests sent <= 1 + datagrams received per exchange (ghost send/receive logs).',
+        'level_note': 'Element sizes bounded by 256 bytes (axiom, to be checked by compile-time assertions); TCP read_to_end and std internal growth (Vec::push, HashMap::insert) are amortised by data actually parsed and not modelled; known finding: valve decompressed_size.',
+    },
     'C17': {
         'technique': 'Verus contracts (requires/ensures) on the real Buffer/decoder/VarInt functions against a (bytes,pos) reference view; Kani complete round trip for VarInt',
         'level_text': 'Unbounded deductive proof: every Buffer operation preserves 0<=pos<=len, returns exactly the reference decoding and advances by exactly the width/consumed bytes or fails leaving pos unchanged, for all packets and cursors; discharged by Verus on the function text extracted from /repo on each run.',
